@@ -342,7 +342,7 @@ class Config:
         """
         Check the validity of config values.
         """
-        for key, val in self.as_dict().items():
+        for key, val in self.as_dict(refresh=True).items():
             if key not in self._alt:
                 continue
 
